@@ -250,6 +250,35 @@ func (c *Ctx) foundPtr(v ssa.Value, id ssa.Value, at *ssa.BasicBlock, depth int)
 // foundIdx: v is the result of a module helper that receives id and whose every return is
 // either a negative constant (not found) or made under an id-equality branch.
 func (c *Ctx) foundIdx(v ssa.Value, id ssa.Value) bool {
+	// the same thing inline: a position variable that is a negative constant unless it was
+	// assigned under an id-equality branch (pos := -1; for i, m := range … { if m.ID() == id {
+	// pos = i; break } })
+	if ph, isPhi := eng.StripConv(v).(*ssa.Phi); isPhi {
+		nFound := 0
+		for i, e := range ph.Edges {
+			if k, isC := eng.ConstInt(e); isC && k < 0 {
+				continue
+			}
+			if inner, isPhi2 := e.(*ssa.Phi); isPhi2 && inner != ph {
+				// the loop-carried copy of the same variable
+				allNeg := true
+				for _, e2 := range inner.Edges {
+					if k, isC := eng.ConstInt(e2); !(isC && k < 0) && e2 != ssa.Value(ph) && e2 != ssa.Value(inner) {
+						allNeg = false
+					}
+				}
+				if allNeg {
+					continue
+				}
+			}
+			if i < len(ph.Block().Preds) && underIdEquality(ph.Block().Preds[i], id) {
+				nFound++
+				continue
+			}
+			return false
+		}
+		return nFound > 0
+	}
 	call, ok := eng.StripConv(v).(*ssa.Call)
 	if !ok {
 		return false
@@ -746,7 +775,8 @@ func (c *Ctx) c07FileIDs() {
 	}
 	n := 0
 	for _, st := range eng.StoresToField(pkgFuncs(p, "pkg/storage/file"), fFid) {
-		idc, ok := st.Store.Val.(*ssa.Call)
+		// the id may reach the record through a constructor parameter (newMessage(id, …))
+		idc, ok := resolveCell(p.Actual(resolveCell(st.Store.Val))).(*ssa.Call)
 		if !ok {
 			continue
 		}
